@@ -164,7 +164,7 @@ int parse_message(const char *msg, size_t length, struct peer *p)
 	int ret = 0;
 
 	const char *end_parse;
-	cJSON *root = cJSON_ParseWithOpts(msg, &end_parse, 0);
+	cJSON *root = cJSON_ParseWithLengthOpts(msg, length, &end_parse, 0);
 	if (unlikely(root == NULL)) {
 		log_peer_err(p, "Could not parse JSON!\n");
 		return -1;
